@@ -377,6 +377,9 @@ def m_from_residual(it, callee, r):
     if target_e == src_e: return ERR(e)
     return ERR(it.call('<%s as std::convert::From<%s>>::from' % (target_e, src_e), [e]))
 
+@model(r'<(.*) as std::ops::(Fn|FnMut|FnOnce)<\(.*\)>>::call(_mut|_once)?')
+def m_fn_call(it, f, args):
+    return it.call_closure(deref_all(f) if isinstance(f, Ref) else f, *list(args))
 # ---------------------------------------------------------------- Box / Arc / mem
 reg(r'std::boxed::Box::<.*>::new', lambda it, v: BoxPtr(Box_(v)))
 reg(r'std::boxed::Box::<.*>::new_uninit', lambda it: BoxPtr(Box_(Uninit())))
